@@ -729,7 +729,7 @@ Lemma built_doc_ok l : doc_ok (deb822_of_paragraphs (map paragraph_of_pairs l)).
 Proof.
   exists (join_paras 0 (map paragraph_of_pairs l)). split; [reflexivity|]. generalize 0 as i.
   induction l as [|p r IH]; intros i; [reflexivity|]. cbn [map join_paras]. rewrite forallb_app. cbn [forallb].
-  rewrite IH. destruct i; reflexivity.
+  rewrite IH. destruct i; destruct (map paragraph_of_pairs r); reflexivity.
 Qed.
 
 (* ------------------------------------------------------------------ the whole: histories through handles *)
